@@ -1,4 +1,5 @@
 import LenaModel.Model.C18
+import LenaModel.Model.C18Spec
 import LenaModel.Lemmas.C18
 /-! # C18 — property theorems: Cache replays exactly the stored flow and never serves a truncated one
 
@@ -51,13 +52,6 @@ theorem rem_build (mode : Mode) (fs : FS) (s : SrcSpec) (els : List ElSpec) (hm 
 
 /-! ## Sentence 1: a run yields the flow unaltered -/
 
-/-- how a consumer that makes at most `k` pulls sees the end of a flow -/
-def endOf (f : Flow) (k : Nat) : End :=
-  if k ≤ f.vals.length then .stopped
-  else match f.exc with
-    | none => .exhausted
-    | some e => .raised e
-
 /-- **a run yields the flow unaltered** (first run or replay, any crash point): a consumer that makes at most
 `k` pulls receives exactly the first `k` values of the pipeline's flow — the caches that are filled on the way
 alter nothing — and sees the end of the flow (normal or exception) iff it asks for more. -/
@@ -92,12 +86,6 @@ theorem run_exhausted_iff (mode : Mode) (fs : FS) (s : SrcSpec) (els : List ElSp
   by_cases hk : k ≤ (pipeFlow fs s els).vals.length
   · simp [hk]; omega
   · cases he : (pipeFlow fs s els).exc <;> simp [hk]; omega
-
-/-- the pipeline without its caches -/
-def eraseCaches : List ElSpec → List ElSpec
-  | [] => []
-  | .map a r :: els => .map a r :: eraseCaches els
-  | .cache _ _ :: els => eraseCaches els
 
 theorem elsFlow_eraseCaches (fs : FS) : ∀ (els : List ElSpec) (f : Flow), NoFilled fs els →
     elsFlow fs els f = elsFlow fs (eraseCaches els) f
@@ -191,13 +179,6 @@ example : ((runPipe .source FS.empty ⟨[1, 2], none⟩ [.map 1 none, .cache 0 f
     = (⟨some [11, 21], none⟩, .exhausted) := by decide
 
 /-! ## Sentence 2b: a later run replays exactly the stored values and touches nothing upstream -/
-
-/-- an event of an element placed after position `p` of the pipeline: in particular not a resumption of the
-source, and not a step of an element at or before `p` -/
-def EvAfter (p : Nat) : Ev → Prop
-  | .step j _ => p < j
-  | .stepRaise j _ => p < j
-  | _ => False
 
 /-- **replay.**  Let cache `c` (not `recompute`) sit anywhere in a pipeline and its file hold `xs`.  Then, for
 every source, every `pre`, every demand `k` and every way of calling (inside a `Sequence`/`Source`, or hoisted):
@@ -374,6 +355,19 @@ example :
     (w1.2.end_, (w1.1.fs 0).final, w2.2.end_, (w2.1.fs 0).final, w3.2.end_, w3.1.fs 0)
       = (.stopped, none, .raised .srcBoom, none, .raised .elBoom, ⟨none, none⟩) := by decide
 
+/-- **an interrupted recomputation keeps the old complete cache**: with `recompute=True` the new flow goes to the
+temporary file; if the run does not reach its normal end the cache file still holds the old complete flow (the
+statement allows an implementation to drop it; this one keeps it). -/
+theorem interrupted_recompute_keeps_old_cache (w : World) (r : RunSpec) (wf : r.WF) (c : Nat) (xs : List Val)
+    (_hc : ElSpec.cache c true ∈ r.els) (hfile : (w.fs c).final = some xs)
+    (hend : (runOp w r).2.end_ ≠ .exhausted) : ((runOp w r).1.fs c).final = some xs := by
+  rw [interrupted_run_keeps_cache_files w r wf hend c, hfile]
+
+example :
+    let w : World := ⟨FS.empty.set 0 ⟨some [5, 6], none⟩, []⟩
+    let x := runOp w ⟨.source, ⟨[1, 2, 3], none⟩, [.cache 0 true], 2, false⟩
+    (x.2.outs.map (·.1), x.2.end_, x.1.fs 0) = ([1, 2], .stopped, ⟨some [5, 6], none⟩) := by decide
+
 theorem runOp_fs_exhausted (w : World) (r : RunSpec)
     (h : (runPipe r.mode w.fs r.src r.els r.demand).end_ = .exhausted) :
     (runOp w r).1.fs = (runPipe r.mode w.fs r.src r.els r.demand).fs := by
@@ -439,13 +433,6 @@ theorem closed_run_leaves_no_tmp (w : World) (r : RunSpec) (wf : r.WF) (hleak : 
 example :
     let w := (runOp World.init ⟨.source, ⟨[1, 2, 3], none⟩, [.cache 0 false, .map 1 (some 1), .cache 1 false], 9, false⟩)
     (w.2.end_, w.1.fs 0, w.1.fs 1) = (.raised .elBoom, ⟨none, none⟩, ⟨none, none⟩) := by decide
-
-/-- cache `c` was stored by the run `r` started on the file system `fs`: `c` is an unfilled (or `recompute`)
-cache of the pipeline with no replayed cache after it, the run reached its normal end, and `xs` is the
-*complete* flow that entered the cache, which ended normally -/
-def StoredBy (fs : FS) (r : RunSpec) (c : Nat) (xs : List Val) : Prop :=
-  ∃ pre rc post, r.els = pre ++ .cache c rc :: post ∧ cacheExists fs c rc = false ∧ NoFilled fs post ∧
-    (runPipe r.mode fs r.src r.els r.demand).end_ = .exhausted ∧ pipeFlow fs r.src pre = ⟨xs, none⟩
 
 /-- what one operation can do to a cache file: leave it, or (a complete run) store a complete flow -/
 theorem step_final_cases (w : World) (op : Op) (wf : ∀ r, op = .run r → r.WF) (c : Nat) (xs : List Val)
